@@ -10,17 +10,20 @@ META = dict(
               "failure_threshold in [1,3], class threshold for RATE_LIMIT absent or in [1,3], trip_on = default or an "
               "explicit set with solver-chosen membership of TRANSIENT and PERMANENT (incl. the empty set), window_s and "
               "recovery_timeout_s solver reals > 0 in either order; after every step state, returned event and admission "
-              "decision are compared with a history-based reference written from the statement",
+              "decision are compared with a history-based reference written from the statement; inductive step harness from an "
+              "ARBITRARY closed state (ghost history of <= 2 live counted failures of either class + <= 2 stale entries "
+              "still held by the class bucket, all ages solver reals): one operation must agree with the reference and "
+              "re-establish the representation, which extends the claim to histories of any length for thresholds <= 3",
         thorough="K=5",
     ),
     assumptions=["floats as reals (exact boundary ages: age == window_s has aged out, as documented)",
                  "single-threaded use (C17 covers interleavings)",
                  "reference breaker: full list of counted failures since the last transition, counted by comprehension"],
-    outside=["histories longer than K (the inductive step harness is future work)", "IEEE rounding of now - window_s"],
+    outside=["thresholds above 3", "IEEE rounding of now - window_s"],
 )
 GOALS = ["opened_by_global_threshold", "opened_by_class_threshold", "aged_out_failure_ignored", "uncounted_class_ignored",
          "boundary_age_equal_window", "half_open_probe", "closed_after_probe", "reopened_after_failed_probe",
-         "empty_trip_on", "failure_before_transition_ignored"]
+         "empty_trip_on", "failure_before_transition_ignored", "step_opened_by_class", "step_stale_bucket_entry", "step_aged_out"]
 CLASSES = [EC.TRANSIENT, EC.RATE_LIMIT, EC.PERMANENT]
 OPS = ["allow", "success", "cancel", "fail_T", "fail_R", "fail_P"]
 
@@ -146,6 +149,113 @@ def h_hist(sym, params):
     return None
 
 
+def h_step(sym, params):
+    """Inductive step from an ARBITRARY closed state (histories of any length).
+
+    Ghost history: R = counted failures since the last transition that are newer than (p - window), p = instant of the
+    last counted failure (these are exactly what the global deque holds after its last prune, and there are fewer than
+    failure_threshold of them, otherwise the breaker would have opened); S = older RATE_LIMIT failures that the class
+    bucket may still hold physically because it is only pruned when a RATE_LIMIT failure arrives (stale entries:
+    <= p - window, hence aged out for every future instant).  Anything older was pruned and can never count again.
+    One operation at now >= p must behave like the reference on R (S contributes nothing) and re-establish the
+    representation."""
+    thr = sym.int("thr", 1, 3)
+    ct = sym.int("class_thr", 0, 3)
+    class_thr = {EC.RATE_LIMIT: ct} if ct >= 1 else {}
+    window = sym.real("window", lo=0)
+    recovery = sym.real("recovery", lo=0)
+    sym.assume(window > 0)
+    sym.assume(recovery > 0)
+    nr = sym.int("nr", 0, 2)
+    sym.assume(nr < thr)
+    # R: nr entries ending at p, all within (p - window, p]
+    t = sym.real("r0", lo=0)
+    R = []
+    for i in range(2):
+        if i < nr:
+            k = sym.choice(f"rk{i}", [EC.TRANSIENT, EC.RATE_LIMIT]) if ct >= 1 else EC.TRANSIENT
+            R.append((t, k))
+            if i + 1 < nr:
+                t = t + sym.real(f"rgap{i}", lo=0)
+    p = R[-1][0] if R else None
+    if R:
+        sym.assume(p - R[0][0] < window)
+    rclass = [x for (x, k) in R if k is EC.RATE_LIMIT]
+    # S: stale RATE_LIMIT entries still sitting in the class bucket
+    S = []
+    if ct >= 1 and R:
+        ns = sym.int("ns", 0, 2)
+        s0 = p - window - sym.real("stale_age", lo=0)  # <= p - window
+        for i in range(2):
+            if i < ns:
+                S.append(s0 + (sym.real("sgap", lo=0) if i == 1 else 0))
+        if len(S) == 2:
+            sym.assume(S[1] <= p - window)
+        for x in S:
+            sym.assume(x >= 0)
+        # bucket was last pruned at p_k = latest RATE_LIMIT failure; everything it holds is newer than p_k - window
+        bucket = S + rclass
+        if bucket:
+            pk = bucket[-1]
+            for x in bucket:
+                sym.assume(x > pk - window)
+        sym.assume(len(bucket) < ct)
+    else:
+        bucket = list(rclass)
+        if ct >= 1:
+            sym.assume(len(bucket) < ct)
+    now = [(p if p is not None else 0) + sym.real("since", lo=0)]
+    b = CircuitBreaker(failure_threshold=thr, window_s=window, recovery_timeout_s=recovery, class_thresholds=class_thr,
+                       clock=lambda: now[0])
+    for (x, _k) in R:
+        b._failures.append(x)
+    if bucket or sym.bool("empty_bucket_present"):
+        from collections import deque
+        b._class_failures[EC.RATE_LIMIT] = deque(bucket)
+    op = OPS[params["pin_op"]]
+    if op in ("allow", "success", "cancel"):
+        before = (list(b._failures), {k: list(v) for k, v in b._class_failures.items()})
+        got = {"allow": lambda: (lambda d: (d.allowed, d.state.value, d.event))(b.allow()), "success": b.record_success,
+               "cancel": b.record_cancel}[op]()
+        exp = (True, "closed", None) if op == "allow" else None
+        if got != exp or b.state is not CircuitState.CLOSED:
+            return ("step:closed_op", f"{op} on a closed breaker returned {got}, state {b.state.value}")
+        if (list(b._failures), {k: list(v) for k, v in b._class_failures.items()}) != before:
+            return ("step:closed_op_mutates", f"{op} on a closed breaker changed the failure history")
+        return None
+    k = {"fail_T": EC.TRANSIENT, "fail_R": EC.RATE_LIMIT, "fail_P": EC.PERMANENT}[op]
+    t_now = now[0]
+    counted = {EC.TRANSIENT, EC.SERVER_ERROR} | set(class_thr)
+    got = b.record_failure(k)
+    if k not in counted:
+        if got is not None or b.state is not CircuitState.CLOSED or len(b._failures) != len(R):
+            return ("step:uncounted", f"failure of {k.name} (not counted) returned {got}")
+        return None
+    live = [(x, c) for (x, c) in R if t_now - x < window]
+    live_k = [x for (x, c) in live if c is k]
+    by_global = len(live) + 1 >= thr
+    by_class = k in class_thr and len(live_k) + 1 >= class_thr[k]
+    exp = "circuit_opened" if (by_global or by_class) else None
+    if got != exp:
+        return ("step:open_decision", f"record_failure({k.name}) at {t_now} returned {got}, reference {exp}: live {live} of R={R}, "
+                                      f"stale bucket entries {S}, thr {thr}, class_thr {class_thr}, window {window}")
+    sym.cover("step_opened_by_class", by_class and not by_global)
+    sym.cover("step_stale_bucket_entry", len(S) >= 1 and k is EC.RATE_LIMIT)
+    sym.cover("step_aged_out", len(live) < len(R))
+    if exp:
+        if b.state is not CircuitState.OPEN or b._failures or b._class_failures or b._opened_at != t_now:
+            return ("step:open_state", "after opening the history must be empty and opened_at = now")
+        return None
+    # representation re-established
+    if list(b._failures) != [x for (x, c) in live] + [t_now]:
+        return ("step:representation", f"global deque {list(b._failures)} != live failures + new {[x for (x, c) in live] + [t_now]}")
+    if k in class_thr and list(b._class_failures.get(k, [])) != live_k + [t_now]:
+        return ("step:representation", f"class bucket {list(b._class_failures.get(k, []))} != live class failures + new {live_k + [t_now]}")
+    if len(b._failures) >= thr:
+        return ("step:representation", "closed with failure_threshold entries")
+    return None
+
+
 def jobs(tier):
     q = tier == "quick"
     K = 4 if q else 5
@@ -155,4 +265,7 @@ def jobs(tier):
             out.append(dict(name=f"hist:K={K}:{OPS[a]},{OPS[b_]}", harness="rv.props.c06:h_hist",
                             params=dict(K=K, pin_ops=[a, b_]), max_wall_s=600 if q else 3000,
                             weight=3 if OPS[a].startswith("fail") else 1))
+    for o in range(len(OPS)):
+        out.append(dict(name=f"step:closed:{OPS[o]}", harness="rv.props.c06:h_step", params=dict(pin_op=o),
+                        max_wall_s=600 if q else 3000, weight=2))
     return out
